@@ -128,13 +128,10 @@ fn any_default(group: u8) -> (Option<Value>, Shape) {
             }
         }
         _ => {
-            if sel {
-                (Some(Value::Object(serde_json::Map::new())), Shape::EmptyObject)
-            } else {
-                let mut m = serde_json::Map::new();
-                m.insert(String::from("k"), Value::Null);
-                (Some(Value::Object(m)), Shape::Object1)
-            }
+            // a NON-empty object default is out of reach: has_default clones it, and cloning a
+            // string-keyed B-tree does not terminate in CBMC (15 min). Only `{}` is probed.
+            let _ = sel;
+            (Some(Value::Object(serde_json::Map::new())), Shape::EmptyObject)
         }
     }
 }
@@ -189,9 +186,15 @@ fn check(details: Option<TypeEntryDetails>, kind: Kind, group: u8) {
                 "[C06/P4a] schema default silently replaced by the type's intrinsic default",
             );
         }
-        (StructPropertyState::Default(WrappedValue(v)), _) => {
+        (StructPropertyState::Default(WrappedValue(v)), s) => {
+            // for a non-empty array only the shape and the element are compared (cheaper than the
+            // derived deep equality)
+            let same = match s {
+                Shape::Array1 => matches!(v, Value::Array(a) if a.len() == 1 && a[0].is_null()),
+                _ => Some(v) == default.as_ref(),
+            };
             kani::assert(
-                Some(v) == default.as_ref(),
+                same,
                 "[C06/P4a] the recorded property default differs from the schema's default",
             );
         }
